@@ -27,28 +27,52 @@ package value
 // ---- dispatch-table function types ----
 
 //@ functype arrayGetterFunc(ar) (r, err)
+//@   requires vmFrame()
 //@   requires ar != nil
 //@   ensures err == nil ==> okElem(r)
+//@   ensures vmFrame()
+//@   ensures [balanced] err == nil && theVM != nil ==> theVM.csCount == old(theVM.csCount)
 //@ functype arraySetterFunc(ar, v) (err)
+//@   requires vmFrame()
 //@   requires ar != nil && okElem(v)
+//@   ensures vmFrame()
+//@   ensures [balanced] err == nil && theVM != nil ==> theVM.csCount == old(theVM.csCount)
 //@ functype arrayMethodFunc(ar, values) (r, err)
+//@   requires vmFrame()
 //@   requires ar != nil
 //@   ensures err == nil ==> okElem(r)
+//@   ensures vmFrame()
+//@   ensures [balanced] err == nil && theVM != nil ==> theVM.csCount == old(theVM.csCount)
 //@ functype numGetterFunc(n) (r, err)
+//@   requires vmFrame()
 //@   requires n != nil
 //@   ensures err == nil ==> okElem(r)
+//@   ensures vmFrame()
+//@   ensures [balanced] err == nil && theVM != nil ==> theVM.csCount == old(theVM.csCount)
 //@ functype numMethodFunc(n, values) (r, err)
+//@   requires vmFrame()
 //@   requires n != nil
 //@   ensures err == nil ==> okElem(r)
+//@   ensures vmFrame()
+//@   ensures [balanced] err == nil && theVM != nil ==> theVM.csCount == old(theVM.csCount)
 //@ functype strGetterFunc(s) (r, err)
+//@   requires vmFrame()
 //@   requires s != nil
 //@   ensures err == nil ==> okElem(r)
+//@   ensures vmFrame()
+//@   ensures [balanced] err == nil && theVM != nil ==> theVM.csCount == old(theVM.csCount)
 //@ functype strMethodFunc(s, values) (r, err)
+//@   requires vmFrame()
 //@   requires s != nil
 //@   ensures err == nil ==> okElem(r)
+//@   ensures vmFrame()
+//@   ensures [balanced] err == nil && theVM != nil ==> theVM.csCount == old(theVM.csCount)
 //@ functype boolGetterFunc(b) (r, err)
+//@   requires vmFrame()
 //@   requires b != nil
 //@   ensures err == nil ==> okElem(r)
+//@   ensures vmFrame()
+//@   ensures [balanced] err == nil && theVM != nil ==> theVM.csCount == old(theVM.csCount)
 
 // ---- constructors and accessors ----
 
@@ -215,7 +239,10 @@ package value
 //@   ensures len(ar.value) == old(len(ar.value))
 
 //@ method (*IV).ReduceRHS
+//@   requires vmFrame()
 //@   modifies *
+//@   ensures vmFrame()
+//@   ensures [balanced] r1 == nil && theVM != nil ==> theVM.csCount == old(theVM.csCount)
 //@   ensures [list-read] old(iv.reduceType) == IVTypeArray && old(is(iv.root, *Array)) ==>
 //@             (1 <= old(iv.index) && old(iv.index) <= old(len(as(iv.root, *Array).value)) ?
 //@                r1 == nil && r0 == old(as(iv.root, *Array).value[iv.index - 1]) : isRuntimeError(r1, 40))
@@ -226,8 +253,10 @@ package value
 //@   ensures [ok-result] r1 == nil ==> okElem(r0)
 
 //@ method (*IV).ReduceLHS
-//@   requires okElem(input)
+//@   requires okElem(input) && vmFrame()
 //@   modifies *
+//@   ensures vmFrame()
+//@   ensures [balanced] result == nil && theVM != nil ==> theVM.csCount == old(theVM.csCount)
 //@   ensures [list-write] old(iv.reduceType) == IVTypeArray && old(is(iv.root, *Array)) &&
 //@             1 <= old(iv.index) && old(iv.index) <= old(len(as(iv.root, *Array).value)) ==>
 //@             result == nil && old(as(iv.root, *Array)).value[old(iv.index) - 1] == input &&
@@ -328,11 +357,17 @@ package value
 //@ typeinv HashMap hmWF(self)
 
 //@ functype hmGetterFunc(hm) (r, err)
+//@   requires vmFrame()
 //@   requires hmWF(hm)
 //@   ensures hmWF(hm) && (err == nil ==> okElem(r))
+//@   ensures vmFrame()
+//@   ensures [balanced] err == nil && theVM != nil ==> theVM.csCount == old(theVM.csCount)
 //@ functype hmMethodFunc(hm, values) (r, err)
+//@   requires vmFrame()
 //@   requires hmWF(hm)
 //@   ensures hmWF(hm) && (err == nil ==> okElem(r))
+//@   ensures vmFrame()
+//@   ensures [balanced] err == nil && theVM != nil ==> theVM.csCount == old(theVM.csCount)
 
 // 移除: the key leaves both structures; the relative order of the other keys is unchanged
 //@ func hmExecDelete
@@ -443,8 +478,11 @@ package value
 
 //@ method (*Function).Exec
 //@   requires okElem(thisValue) || thisValue == nil
+//@   requires vmFrame()
 //@   modifies *
 //@   ensures r1 == nil ==> okElem(r0)
+//@   ensures vmFrame()
+//@   ensures [balanced] r1 == nil && theVM != nil ==> theVM.csCount == old(theVM.csCount)
 
 //@ method (*HashMap).String
 //@   requires hmWF(hm)
@@ -485,3 +523,17 @@ package value
 //@   ensures r1 == nil && okElem(r0)
 //@   loop 1 invariant charArr != nil && fresh(charArr) && (charArr.value.base == 0 || fresh(charArr.value))
 //@   loop 1 decreases len(v)
+
+//@ method (*Object).GetObjectName
+//@   pure
+//@   ensures result == zo.model.name
+
+//@ method (*Number).String
+//@   modifies nothing
+
+//@ method (*ClassModel).Construct
+//@   requires vmFrame()
+//@   modifies *
+//@   ensures r1 == nil ==> okElem(r0)
+//@   ensures vmFrame()
+//@   ensures [balanced] r1 == nil && theVM != nil ==> theVM.csCount == old(theVM.csCount)
